@@ -20,6 +20,7 @@ import (
 	"github.com/runreveal/pql"
 	"github.com/runreveal/pql/parser"
 	rt "github.com/runreveal/pql/verifrt"
+	"verif/harness/gen"
 	"verif/harness/run"
 )
 
@@ -408,7 +409,10 @@ func main() {
 	r := run.New("C14", tier, "model_checking")
 	r.MC = true
 	r.ReplayFn = func(v *run.Viol) (bool, string) {
-		if _, ok := v.Extra["schedule"]; !ok {
+		_, hasSched := v.Extra["schedule"]
+		_, hasCalls := v.Extra["calls"]
+		_, hasPair := v.Extra["pair"]
+		if !hasSched && !hasCalls && !hasPair {
 			return true, ""
 		}
 		// a reported schedule must fail identically twice
@@ -491,6 +495,7 @@ func main() {
 			}
 		}
 		histories(w, r, tier)
+		pairHistories(w, r, tier)
 	})
 	r.Extra["scenarios"] = info
 	r.Extra["registered_globals"] = rt.GlobalNames()
@@ -642,6 +647,13 @@ func histories(w *run.Worker, r *run.Runner, tier string) {
 	}
 	var seq []int
 	var count int64
+	callsOf := func(idx []int) []call {
+		var out []call
+		for _, ci := range idx {
+			out = append(out, call{"compile", alphabet[ci].src, alphabet[ci].opt})
+		}
+		return out
+	}
 	var rec func()
 	rec = func() {
 		if len(seq) > 0 {
@@ -654,12 +666,12 @@ func histories(w *run.Worker, r *run.Runner, tier string) {
 				got := doCall(call{"compile", c.src, c.opt}, opts)
 				if got != fresh[ci] {
 					w.Begin("histories", fmt.Sprint(seq))
-					w.Fail("result-depends-on-history", c.src, fmt.Sprintf("call %d of history %v (%q, options #%d) returns %+v, but %+v when made first", k, seq, c.src, c.opt, got, fresh[ci]), map[string]any{"history": fmt.Sprint(seq)})
+					w.Fail("result-depends-on-history", c.src, fmt.Sprintf("call %d of history %v (%q, options #%d) returns %+v, but %+v when made first", k, seq, c.src, c.opt, got, fresh[ci]), map[string]any{"history": fmt.Sprint(seq), "calls": callsOf(seq[:k+1])})
 					return
 				}
 				if !reflect.DeepEqual(opts, pristine) {
 					w.Begin("histories", fmt.Sprint(seq))
-					w.Fail("parameter-map-modified", c.src, fmt.Sprintf("after call %d of history %v the caller's options changed: %+v", k, seq, opts[c.opt]), map[string]any{"history": fmt.Sprint(seq)})
+					w.Fail("parameter-map-modified", c.src, fmt.Sprintf("after call %d of history %v the caller's options changed: %+v", k, seq, opts[c.opt]), map[string]any{"history": fmt.Sprint(seq), "calls": callsOf(seq[:k+1])})
 					return
 				}
 			}
@@ -733,8 +745,41 @@ func replayViol(w *run.Worker, v *run.Viol) {
 		e.check(ex, o, prefix, err)
 		return
 	}
-	if h, ok := v.Extra["history"].(string); ok {
-		w.Fail(v.Sig, v.Source, "history "+h+" (re-run the check to reproduce)", nil)
+	// sequential histories: run the recorded calls again and compare every call with its fresh-state result
+	var calls []call
+	for _, key := range []string{"calls", "pair"} {
+		if raw, ok := v.Extra[key]; ok {
+			b, _ := json.Marshal(raw)
+			json.Unmarshal(b, &calls)
+		}
+	}
+	if len(calls) == 0 {
+		return
+	}
+	w.Begin(v.Check, v.Source)
+	fresh := make([]result, len(calls))
+	for i, c := range calls {
+		rt.Restore()
+		recheckLive()
+		fresh[i] = doCall(c, mkOptions())
+	}
+	rt.Restore()
+	recheckLive()
+	opts := mkOptions()
+	pristine := mkOptions()
+	for i, c := range calls {
+		got := doCall(c, opts)
+		if got != fresh[i] {
+			w.Fail("result-depends-on-history", c.Src, fmt.Sprintf("call %d (%s %q, options #%d) returns %+v, but %+v when made first", i, c.Kind, c.Src, c.Opt, got, fresh[i]), nil)
+			return
+		}
+		if !reflect.DeepEqual(opts, pristine) {
+			w.Fail("parameter-map-modified", c.Src, fmt.Sprintf("after call %d the caller's options changed: %+v", i, opts[c.Opt]), nil)
+			return
+		}
+	}
+	if l, now := recheckLive(); l != nil {
+		w.Fail("result-changed-after-return:"+l.call.Kind, l.call.Src, fmt.Sprintf("the value returned by %s %q changed: first %.200s, now %.200s", l.call.Kind, l.call.Src, l.first, now), nil)
 	}
 }
 
@@ -763,4 +808,106 @@ func replayTier(path string) string {
 		return "thorough"
 	}
 	return "quick"
+}
+
+// pairAlphabet: the grammar corpus (every operator variant, pairs of representative operators, joins,
+// lets, several statements) as sources, each also in two failing forms: cut after two thirds of its
+// lexemes (syntax error) and followed by an operator that fails late in compilation.
+func pairAlphabet(tier string) []call {
+	var out []call
+	seen := map[string]bool{}
+	add := func(kind, src string, opt int) {
+		k := fmt.Sprint(kind, "\x00", src, "\x00", opt)
+		if !seen[k] {
+			seen[k] = true
+			out = append(out, call{kind, src, opt})
+		}
+	}
+	progs := gen.Programs()
+	single := len(gen.OperatorVariants())
+	for i, p := range progs {
+		pr := gen.Print(p)
+		src := pr.Layout(pr.Uniform(" ")).Source
+		// quick: every single-operator program, every 6th of the others; failing forms for every 8th / 2nd
+		if tier != "thorough" && i >= single && i%6 != 0 {
+			continue
+		}
+		add("compile", src, -1)
+		if (tier != "thorough" && i%8 != 0) || i%2 != 0 {
+			continue
+		}
+		cut := pr.Lexemes[:len(pr.Lexemes)*2/3]
+		var sb strings.Builder
+		for _, l := range cut {
+			sb.WriteString(l)
+			sb.WriteByte(' ')
+		}
+		add("compile", sb.String(), -1)
+		add("compile", src+" | where not(a, b)", -1)
+		add("compile", src, 4)
+		switch i % 24 / 8 * 8 {
+		case 0:
+			add("parse", src, -1)
+		case 8:
+			add("scan", src, -1)
+		case 16:
+			add("split", src+"; "+src, -1)
+		}
+	}
+	return out
+}
+
+// pairHistories: every ordered pair (p, q) of the pair alphabet: q made directly after p in a fresh
+// state returns what q returns when made first, and what p returned does not change.
+func pairHistories(w *run.Worker, r *run.Runner, tier string) {
+	alpha := pairAlphabet(tier)
+	fresh := make([]result, len(alpha))
+	safe := func(c call, opts []*pql.CompileOptions) (res result) {
+		defer func() {
+			if p := recover(); p != nil {
+				res = result{Err: fmt.Sprintf("panic: %v", p)}
+			}
+		}()
+		return doCall(c, opts)
+	}
+	for i, c := range alpha {
+		rt.Restore()
+		recheckLive()
+		fresh[i] = safe(c, mkOptions())
+	}
+	recheckLive()
+	var count int64
+	pristine := mkOptions()
+	for pi, p := range alpha {
+		w.Begin("pair-histories", p.Src)
+		w.Nontrivial()
+		for qi, q := range alpha {
+			rt.Restore()
+			opts := mkOptions()
+			first := safe(p, opts)
+			got := safe(q, opts)
+			count++
+			if first != fresh[pi] {
+				w.Fail("harness:restore-incomplete", p.Src, fmt.Sprintf("the first call after Restore returns %+v, earlier %+v", first, fresh[pi]), nil)
+				return
+			}
+			if got != fresh[qi] {
+				w.Fail("result-depends-on-history", q.Src, fmt.Sprintf("%s %q (options #%d) directly after %s %q (options #%d) returns %+v, but %+v when made first", q.Kind, q.Src, q.Opt, p.Kind, p.Src, p.Opt, got, fresh[qi]),
+					map[string]any{"pair": []call{p, q}})
+				return
+			}
+			if l, now := recheckLive(); l != nil {
+				w.Fail("result-changed-after-return:"+l.call.Kind, l.call.Src, fmt.Sprintf("the value returned by %s %q changed after %s %q: first %.200s, now %.200s", l.call.Kind, l.call.Src, q.Kind, q.Src, l.first, now), map[string]any{"pair": []call{p, q}})
+				return
+			}
+			if !reflect.DeepEqual(opts, pristine) {
+				w.Fail("parameter-map-modified", q.Src, fmt.Sprintf("after %q then %q the caller's options changed", p.Src, q.Src), map[string]any{"pair": []call{p, q}})
+				return
+			}
+		}
+	}
+	w.Count("states", count)
+	w.Count("transitions", 2*count)
+	w.Count("traces_validated", count)
+	r.Extra["pair_histories"] = map[string]any{"alphabet": len(alpha), "pairs": count}
 }
